@@ -117,9 +117,11 @@ variable {cfg : Cfg} (ok : CfgOK cfg) (hfuel : cfg.fuel = 0) (hperm : OrdPerm cf
       rd.h.mtype == cfg.mtPause) = false)
 include ok hfuel hperm inv hm hget hal he hb q hc hd hs
 
-/-- a data frame: DEBUG log line, forward; the Spec's C01 clauses (and C19's "never acknowledged") hold of the events -/
+/-- a data frame: DEBUG log line, forward; the Spec's C01 clauses (and C19's "never acknowledged") hold of the events,
+    and so does C14's "a logger is waited for" -/
 theorem seg_data (hn : (rd.h.mtype == cfg.mtSetName) = false) (hr : (rd.h.mtype == cfg.mtModuleReady) = false) :
-    SegGoal cfg a rd evs s2 := by
+    SegGoal cfg a rd evs s2 ∧
+    (∀ X : A, X.mods = a.mods → X.fail = a.fail → Spec.checkLoggerWaited cfg X rd evs = X) := by
   rw [readOne_whole cfg s rd inv.top.good.ok m hm hb, pm_data cfg _ _ _ hc hd hs hn hr] at q
   obtain ⟨Z, hZ, hseg⟩ := Spec.segment_data cfg a rd evs am hget hal hb hc hd hs hn hr
   obtain ⟨fr, hfr⟩ : ∃ fr : Frame, fr = Frame.mk rd.h.mtype rd.h.src rd.h.dest rd.h.destHost rd.h.nbytes.toNat (.data rd.h.k) :=
@@ -197,8 +199,55 @@ theorem seg_data (hn : (rd.h.mtype == cfg.mtSetName) = false) (hr : (rd.h.mtype 
     unfold Spec.brokenRd at hb
     simp only [Bool.or_eq_false_iff, decide_eq_false_iff_not] at hb
     exact hb.1.1.2
+  -- every eligible subscriber gets exactly one copy
+  have c3 : rd.h.mtype ≠ cfg.allTypes → ∀ au ∈ Spec.dexpected cfg (Spec.afterBuf cfg a rd) rd.h,
+      ((Spec.dmine rd.h.k evs).filter (·.1 == au.uid)).length = 1 := by
+    intro ht au hau
+    unfold Spec.dexpected at hau
+    split at hau
+    · rename_i hir
+      obtain ⟨hau1, hau2⟩ := List.mem_filter.mp hau
+      obtain ⟨hau3, hau4⟩ := List.mem_filter.mp hau1
+      have halv : au.alive = true ∧ Spec.subscribed au rd.h.mtype = true := by simpa using hau4
+      have hrd : (Spec.ready (Spec.afterBuf cfg a rd) au && Spec.destOK rd.h au) = true ∧
+          (Spec.afterBuf cfg a rd).failing au.uid = false := by simpa using hau2
+      have hlive := live_of_mem (uids_nodup hs0.uids) hau3 halv.1
+      have hu0 := uid_pos hs0.uids hau3
+      obtain ⟨mu, hmu⟩ := Option.isSome_iff_exists.mp ((hs0.live au.uid hu0).mp (by simp [hlive]))
+      have hsmu := hs0.mods au.uid au mu hlive hmu
+      have hnf : failOf (rdState cfg s rd) au.uid = none := (failing_iff hs0.fail au.uid).mp hrd.2
+      -- it survives the log line
+      have hk := pL.keep au.uid hnf
+      rw [hmu] at hk
+      cases hL : sL.find au.uid with
+      | none => simp [hL] at hk
+      | some mL =>
+        simp only [hL, Option.map_some, Option.some.injEq] at hk
+        have hopen : mL.closed = false := tL.aopen au.uid mL hL
+        have hcan : canTake sL au.uid = true := by
+          unfold canTake; simp [hL, hopen, failOf_congr pL.fail, hnf]
+        obtain ⟨_, hid, hlg, _⟩ := core_fields hk
+        have hel : elig fr sL au.uid = true := by
+          rw [elig_spec fr rd.h hfd hL hcan (by rw [hid, hsmu.modId]) (by rw [hlg, hsmu.isLogger]) rfl
+            (by rw [pL.wlist]; exact hs0.w au.uid (by simp [hlive]))]
+          exact hrd.1
+        have hinR : au.uid ∈ recipients cfg sL fr.mtype := by
+          rw [hmemR]
+          rcases (subscribed_iff hsmu rd.h.mtype ht).mp halv.2 with h | h
+          · exact Or.inl (nL.idxKeep _ _ (hs0.idxIn au.uid mu _ hmu h) ⟨mL, hL, hopen⟩)
+          · exact Or.inr (nL.idxKeep _ _ (hs0.idxIn au.uid mu _ hmu h) ⟨mL, hL, hopen⟩)
+        rw [hcount, hcopies, if_pos rfl]
+        have hoor : oor cfg fr = false := by
+          have := inRange_oor cfg rd.h fr hfd hfh
+          rw [hir] at this; simpa using this.symm
+        simp only [hoor, Bool.false_eq_true, if_false]
+        rw [List.filter_map, List.length_map]
+        have : (List.filter ((fun x => x.1 == au.uid) ∘ fun u => (u, fr)) ((recipients cfg sL fr.mtype).filter (elig fr sL))) =
+            ((recipients cfg sL fr.mtype).filter (elig fr sL)).filter (· == au.uid) := by congr 1
+        rw [this, nodup_count_eq _ _ ((hta ht).filter _), if_pos (List.mem_filter.mpr ⟨hinR, hel⟩)]
+    · cases hau
   have hdata : Spec.ErrExt ["C14"] (Spec.afterBuf cfg a rd) (Spec.checkData cfg (Spec.afterBuf cfg a rd) rd.h evs) := by
-    refine Spec.checkData_c01 cfg _ rd.h evs (by rw [hdm]) ?_ ?_ ?_
+    refine Spec.checkData_c01 cfg _ rd.h evs (by rw [hdm]) ?_ c3 ?_
     · intro p hp
       have hp1 : p ∈ Spec.sends evs := by rw [hdm] at hp; exact (List.mem_filter.mp hp).1
       have hpb : p.2.2.body = Body.data rd.h.k := by
@@ -211,51 +260,6 @@ theorem seg_data (hn : (rd.h.mtype == cfg.mtSetName) = false) (hr : (rd.h.mtype 
         have : p.2.2 = fr := (Prod.mk.inj hu).2.symm
         rw [this, hfr]
         exact ⟨rfl, rfl, rfl, rfl, by show ((rd.h.nbytes.toNat : Nat) : Int) = rd.h.nbytes; omega⟩
-    · -- every eligible subscriber gets exactly one copy
-      intro ht au hau
-      unfold Spec.dexpected at hau
-      split at hau
-      · rename_i hir
-        obtain ⟨hau1, hau2⟩ := List.mem_filter.mp hau
-        obtain ⟨hau3, hau4⟩ := List.mem_filter.mp hau1
-        have halv : au.alive = true ∧ Spec.subscribed au rd.h.mtype = true := by simpa using hau4
-        have hrd : (Spec.ready (Spec.afterBuf cfg a rd) au && Spec.destOK rd.h au) = true ∧
-            (Spec.afterBuf cfg a rd).failing au.uid = false := by simpa using hau2
-        have hlive := live_of_mem (uids_nodup hs0.uids) hau3 halv.1
-        have hu0 := uid_pos hs0.uids hau3
-        obtain ⟨mu, hmu⟩ := Option.isSome_iff_exists.mp ((hs0.live au.uid hu0).mp (by simp [hlive]))
-        have hsmu := hs0.mods au.uid au mu hlive hmu
-        have hnf : failOf (rdState cfg s rd) au.uid = none := (failing_iff hs0.fail au.uid).mp hrd.2
-        -- it survives the log line
-        have hk := pL.keep au.uid hnf
-        rw [hmu] at hk
-        cases hL : sL.find au.uid with
-        | none => simp [hL] at hk
-        | some mL =>
-          simp only [hL, Option.map_some, Option.some.injEq] at hk
-          have hopen : mL.closed = false := tL.aopen au.uid mL hL
-          have hcan : canTake sL au.uid = true := by
-            unfold canTake; simp [hL, hopen, failOf_congr pL.fail, hnf]
-          obtain ⟨_, hid, hlg, _⟩ := core_fields hk
-          have hel : elig fr sL au.uid = true := by
-            rw [elig_spec fr rd.h hfd hL hcan (by rw [hid, hsmu.modId]) (by rw [hlg, hsmu.isLogger]) rfl
-              (by rw [pL.wlist]; exact hs0.w au.uid (by simp [hlive]))]
-            exact hrd.1
-          have hinR : au.uid ∈ recipients cfg sL fr.mtype := by
-            rw [hmemR]
-            rcases (subscribed_iff hsmu rd.h.mtype ht).mp halv.2 with h | h
-            · exact Or.inl (nL.idxKeep _ _ (hs0.idxIn au.uid mu _ hmu h) ⟨mL, hL, hopen⟩)
-            · exact Or.inr (nL.idxKeep _ _ (hs0.idxIn au.uid mu _ hmu h) ⟨mL, hL, hopen⟩)
-          rw [hcount, hcopies, if_pos rfl]
-          have hoor : oor cfg fr = false := by
-            have := inRange_oor cfg rd.h fr hfd hfh
-            rw [hir] at this; simpa using this.symm
-          simp only [hoor, Bool.false_eq_true, if_false]
-          rw [List.filter_map, List.length_map]
-          have : (List.filter ((fun x => x.1 == au.uid) ∘ fun u => (u, fr)) ((recipients cfg sL fr.mtype).filter (elig fr sL))) =
-              ((recipients cfg sL fr.mtype).filter (elig fr sL)).filter (· == au.uid) := by congr 1
-          rw [this, nodup_count_eq _ _ ((hta ht).filter _), if_pos (List.mem_filter.mpr ⟨hinR, hel⟩)]
-      · cases hau
     · -- nobody else gets one
       intro ht p hp
       have hp1 : p ∈ Spec.sends evs := by rw [hdm] at hp; exact (List.mem_filter.mp hp).1
@@ -314,7 +318,8 @@ theorem seg_data (hn : (rd.h.mtype == cfg.mtSetName) = false) (hr : (rd.h.mtype 
   have hW : Spec.CoreExt others (Spec.afterBuf cfg a rd) (Spec.checkDepartures cfg Z none evs) :=
     ((ext_others hdata).trans (core_others hZ)).trans (ext_others (dep_ext hs0 t0 n q evs he
       (hdata.core.trans (hZ.mono (by simp))) none dt.dep (fun u hu => by cases hu)))
-  exact segGoal_of hseg rfl (seg_close hs0 t0 n q evs he hW)
+  exact ⟨segGoal_of hseg rfl (seg_close hs0 t0 n q evs he hW),
+    fun X hXm hXf => Spec.checkLoggerWaited_of_c01 cfg X (Spec.afterBuf cfg a rd) rd evs hXm hXf c3⟩
 
 end data
 
